@@ -571,6 +571,28 @@ namespace bloch::runtime {
         m_gcCv.notify_all();
         if (m_gcThread.joinable())
             m_gcThread.join();
+        // Drop every remaining object reference now, while the class table, the simulator and
+        // the qubit tables are still alive. Members are destroyed in reverse declaration order,
+        // so m_classTable would otherwise die before m_env / m_returnValue, and the object
+        // deleters (destroyObject) would then read freed class metadata - e.g. when a runtime
+        // error unwinds out of execute() while an object owning a qubit is still in scope.
+        // User destructors are not run at this point: the run is over and its output flushed.
+        try {
+            {
+                std::lock_guard<std::mutex> lock(m_heapMutex);
+                for (auto& w : m_heap) {
+                    if (auto obj = w.lock())
+                        obj->skipDestructor = true;
+                }
+            }
+            m_returnValue = {};
+            while (!m_env.empty()) m_env.pop_back();
+            for (auto& kv : m_classTable) {
+                if (kv.second)
+                    kv.second->staticStorage.clear();
+            }
+        } catch (...) {
+        }
     }
 
     Value RuntimeEvaluator::lookup(const std::string& name) {
